@@ -28,6 +28,9 @@ type Job struct {
 	Out     string   `json:"out"`
 	WallS   float64  `json:"wall_s"` // wall-clock cap for this job
 	MaxFail int      `json:"max_fail"`
+	// Known: message phrases of recorded findings (class -> phrases). Runs that fail with one of them are counted
+	// and kept only a few times per job, so that they never use up the room for other violations.
+	Known map[string][]string `json:"known,omitempty"`
 }
 
 // Failure is one violating run.
@@ -65,6 +68,7 @@ type WorkerOut struct {
 	Aborts     map[string]int `json:"aborts"`
 	Samples    []Sample       `json:"samples"`
 	Failures   []Failure      `json:"failures"`
+	FailRuns   map[string]int `json:"fail_runs"` // class -> number of failing runs (all of them, kept or not)
 	WallS      float64        `json:"wall_s"`
 	// replay / shrink
 	Replay   *ReplayOut `json:"replay,omitempty"`
@@ -164,6 +168,7 @@ func search(t *testing.T, def *Def, job *Job, out *WorkerOut) {
 		maxFail = 20
 	}
 	leaked := 0
+	kept := map[string]int{}
 	for i := job.Start; i < job.Start+job.Count; i++ {
 		if job.WallS > 0 && time.Now().After(deadline) {
 			out.Aborts["wallclock"]++
@@ -212,10 +217,25 @@ func search(t *testing.T, def *Def, job *Job, out *WorkerOut) {
 			}
 			out.Samples = append(out.Samples, Sample{Seed: seed, Steps: res.Steps, Preempt: res.Preemptions, Trace: tr, LogHash: res.LogHash})
 		}
-		if len(res.Violations) > 0 && len(out.Failures) < maxFail {
+		if len(res.Violations) > 0 {
 			v := res.Violations[0]
-			out.Failures = append(out.Failures, Failure{Index: i, Seed: seed, Class: v.Class, Msg: v.Msg, Tape: res.Tape,
-				LogHash: res.LogHash, All: res.Violations})
+			if out.FailRuns == nil {
+				out.FailRuns = map[string]int{}
+			}
+			out.FailRuns[v.Class]++
+			// kept: at most maxFail per class, and at most 3 per class for runs that show a recorded finding
+			key, limit := v.Class, maxFail
+			for _, ph := range job.Known[v.Class] {
+				if ph != "" && strings.Contains(v.Msg, ph) {
+					key, limit = "known:"+v.Class, 3
+					break
+				}
+			}
+			if kept[key] < limit {
+				kept[key]++
+				out.Failures = append(out.Failures, Failure{Index: i, Seed: seed, Class: v.Class, Msg: v.Msg, Tape: res.Tape,
+					LogHash: res.LogHash, All: res.Violations})
+			}
 		}
 		leaked += len(res.Alive)
 	}
